@@ -299,6 +299,10 @@ class Scratch:
             if not os.path.lexists(dl):
                 os.symlink(self.dir("a/sub"), dl)
             return os.path.join(dl, "..", "..", d, name)
+        if style == "dirlinkpath":
+            from pathlib import Path
+
+            return Path(self.spell(d, name, "dirlink"))
         if style == "home":
             # '~' refers to $HOME, which the scenario points at the scratch root for the duration of the run
             os.environ["HOME"] = self.root
